@@ -3,7 +3,7 @@ from vf.extract import FnC, Sel, Mod
 from vf.unit import Unit, Lemma
 from contracts import common as K
 
-P = ('C05', 'C01', 'C07', 'C12', 'C14')
+P = ('C05', 'C01', 'C07', 'C12', 'C14', 'C16')
 
 ITER_INV = '''
                 it.history@.len() == it.index@, it.index@ <= n,
@@ -161,7 +161,7 @@ def trait_sel(enc):
     // `out` is the ciphertext-stealing image of `m` under this object (defined per variant from spec/cts.rs)
     spec fn %(v)s_ok(&self, m: Seq<u8>, out: Seq<u8>) -> bool;
 ''' % {'v': v}
-    PG = ('C05', 'C13', 'C01', 'C12', 'C14')
+    PG = ('C05', 'C13', 'C01', 'C12', 'C14', 'C16')
     return Sel('trait ' + T, members=members, fns={
         '%scrypt_inout' % v[:2]: FnC(ret='r', props=PG, requires=['buf.wf()'], ensures=[
             ('len', PG, 'buf.out_fut().len() == buf.out_cur().len()'),
@@ -225,7 +225,7 @@ def lib_mod():
     ])
 
 
-PG = ('C05', 'C13', 'C01', 'C12', 'C14')
+PG = ('C05', 'C13', 'C01', 'C12', 'C14', 'C16')
 
 
 def enc_ok_expr(cbc, variant, efn, iv, m, out, b):
